@@ -12,7 +12,7 @@ PMulPoly(a, b) ==
                   a |-> Step(acc.a)],
                [r |-> 0, a |-> a], BitIdx)
   IN st.r
-FromPolyTab == AntiFunction([i \in Sym |-> ToPoly(i)])
+FromPolyTab == InverseOnto([i \in Sym |-> ToPoly(i)], 0, Order - 1, 0)
 PMul(a, b) == FromPolyTab[PMulPoly(ToPoly(a), ToPoly(b))]
 
 (***************************************************************************)
@@ -22,6 +22,8 @@ PMul(a, b) == FromPolyTab[PMulPoly(ToPoly(a), ToPoly(b))]
 CantorOK == /\ Basis[1] = 1
             /\ \A b \in 2..Bits : PMulPoly(Basis[b], Basis[b]) ^^ Basis[b] = Basis[b-1]
 \* ToPoly is a bijection (Basis really is a basis) and the generator is primitive.
+\* the doubling table equals the bitwise definition
+ToPolyOK    == \A i \in Sym : ToPoly(i) = ToPolyDef(i)
 BasisOK     == Cardinality({ToPoly(i) : i \in Sym}) = Order
 PrimitiveOK == Cardinality({PExp[e] : e \in 0..(Modulus-1)}) = Modulus
 =============================================================================
